@@ -204,6 +204,12 @@ def run_item(item):
     outs = []
     for j in range(INPUTS_PER_ITEM):
         kind, data = base_input(rng)
+        if ('blamefmt' in cls or 'blamepal' in cls) and rng.random() < 0.5:
+            # options that only blame output consults meet blame output
+            kind, data = 'blame', corpus.blame_text(corpus.gen_blame_model(rng)).encode()
+        elif 'greptype' in cls and rng.random() < 0.4:
+            m = corpus.gen_grep_model(rng)
+            kind, data = rng.choice([('grep-plain', corpus.grep_text_plain(m, True).encode()), ('rg-json', corpus.rg_json_text(m).encode())])
         if rng.random() < 0.08:
             # two inputs of different kinds back to back (state carried from one construct kind into another)
             kind2, data2 = base_input(rng)
